@@ -308,14 +308,14 @@ func runC10(seed int64, tier string, out string) {
 	r := rand.New(rand.NewSource(seed))
 	meta := newMeta("C10", seed)
 	meta.Rule = "transactions generated from one seeded PRNG: 1-3 of the tables t1..t3 updated by 1-2 UPDATE/INSERT/DELETE statements each, 0-2 tables created (CREATE TABLE + 0-2 INSERT), 0-1 table locked by a statement that changes nothing, t4 untouched, statements interleaved at random, implicit or explicit COMMIT, line break LF/CRLF/stripped. Each transaction is run by build/csvq under strace -f once undisturbed and once per (system call class in openat/ftruncate/write/close/unlinkat/renameat, N) with SIGKILL injected before the N-th such call on a repository path. A case = one run; it is non-trivial when at least one mutating call completed; distinct = distinct (transaction, number of completed calls, killed or not) triples."
-	w := &shardWriter{dir: out, prop: "C10", max: 250, meta: meta,
+	w := &shardWriter{dir: out, prop: "C10", max: 120, meta: meta,
 		header: "From Coq Require Import NArith List.\nRequire Import Csvq.Model.Base Csvq.Model.Fs Csvq.Model.Commit Csvq.Harness.H10.\nOpen Scope list_scope.\n",
 		footer: func(ls []string) string {
 			return "Definition M := Eval vm_compute in (check_c10 cases).\nPrint M.\n"
 		}}
-	nTxn, rounds := 14, 1
+	nTxn, rounds := 40, 2
 	if tier == "thorough" {
-		nTxn, rounds = 120, 6
+		nTxn, rounds = 400, 6
 	}
 	sc := newScratch()
 	defer sc.Close()
